@@ -1,6 +1,7 @@
 package main
 
 import (
+	"sync"
 	"encoding/json"
 	"flag"
 	"fmt"
@@ -336,18 +337,35 @@ func runPropertyFiltered(eng *Engine, prop, tier string, seed int, loadSecs floa
 		return run
 	}
 	results := solveAll(obls, filepath.Join(verifDir, "out", prop), budget, seed, 16)
-	// retry locked obligations that timed out once with a longer budget
-	for i, r := range results {
-		want := "unsat"
-		if r.O.Cover {
-			want = "sat"
+	// retry locked obligations that timed out once with a longer budget.  The
+	// retries run five at a time (each races three solvers) and at most 48 are
+	// retried: a change that turns hundreds of obligations `unknown` is reported
+	// from the first pass instead of costing 30 s per obligation in sequence.
+	{
+		var idx []int
+		for i, r := range results {
+			if retry && locked[r.O.Name] && r.R.Status == "unknown" && budget < 30000 {
+				idx = append(idx, i)
+			}
 		}
-		if retry && locked[r.O.Name] && r.R.Status == "unknown" && budget < 30000 {
-			rr := solve(r.File, 30000, seed+1)
-			rr.Secs += r.R.Secs
-			results[i].R = rr
+		if len(idx) > 48 {
+			fmt.Printf("NOTE %d locked obligations undecided after the first pass; only the first 48 are retried with the long budget\n", len(idx))
+			idx = idx[:48]
 		}
-		_ = want
+		sem := make(chan struct{}, 5)
+		var wg sync.WaitGroup
+		for _, i := range idx {
+			wg.Add(1)
+			sem <- struct{}{}
+			go func(i int) {
+				defer wg.Done()
+				defer func() { <-sem }()
+				rr := solve(results[i].File, 30000, seed+1)
+				rr.Secs += results[i].R.Secs
+				results[i].R = rr
+			}(i)
+		}
+		wg.Wait()
 	}
 	for _, r := range results {
 		it := &Item{Name: r.O.Name, Kind: r.O.Kind, Solver: r.R.Solver, Secs: r.R.Secs, Pos: r.O.Pos, File: r.File, Locked: locked[r.O.Name], Func: r.O.Func, Raw: r.R.Output}
